@@ -52,7 +52,21 @@ Section Symbols.
   Theorem C35_fileset_template_roundtrip : forall (fs : bool) (s : str),
     parse_literal_program xidc fs (format_string s) = LOk s.
   Proof. exact (literal_program_roundtrip xidc ascii_ok). Qed.
+
+  (** Consequences: formatting is injective - two different bookmark / tag / remote names never
+      get the same revset text, and (name, remote) pairs never collide in the name@remote form. *)
+  Theorem C35_format_symbol_injective : forall s1 s2 : str,
+    format_symbol xidc s1 = format_symbol xidc s2 -> s1 = s2.
+  Proof. exact (format_symbol_injective xidc ascii_ok). Qed.
+
+  Theorem C35_format_remote_symbol_injective : forall n1 r1 n2 r2 : str,
+    format_remote_symbol xidc n1 r1 = format_remote_symbol xidc n2 r2 -> n1 = n2 /\ r1 = r2.
+  Proof. exact (format_remote_symbol_injective xidc ascii_ok). Qed.
 End Symbols.
+
+Theorem C35_escape_string_injective : forall s1 s2 : str,
+  escape_string s1 = escape_string s2 -> s1 = s2.
+Proof. exact escape_string_injective. Qed.
 
 (** The pest rules the model is written against still read as they did. *)
 Theorem C35_grammar_pinned : scraped_rules = expected_rules.
